@@ -590,6 +590,8 @@ func (s *SourceControl) CoupleErrToFB(couple *bool, reply *bool) error {
 		}
 		err := s.ActiveSource.SetCoupling(c)
 		s.clientUpdates <- ClientUpdate{"TRIGCOUPLING", c}
+		// SetCoupling edits the group-trigger connections: report the set now in use, too
+		s.clientUpdates <- ClientUpdate{"GROUPTRIGGER", s.ActiveSource.ComputeGroupTriggerState()}
 		s.queuedResults <- err
 	}
 	err := s.runLaterIfActive(f)
@@ -606,6 +608,8 @@ func (s *SourceControl) CoupleFBToErr(couple *bool, reply *bool) error {
 		}
 		err := s.ActiveSource.SetCoupling(c)
 		s.clientUpdates <- ClientUpdate{"TRIGCOUPLING", c}
+		// SetCoupling edits the group-trigger connections: report the set now in use, too
+		s.clientUpdates <- ClientUpdate{"GROUPTRIGGER", s.ActiveSource.ComputeGroupTriggerState()}
 		s.queuedResults <- err
 	}
 	err := s.runLaterIfActive(f)
